@@ -89,7 +89,8 @@ Definition spec_C18 (c : c18case) (obs : list Z) : bool :=
       processed before some of its mutations
    3: a write that changes a key it does not mark: no event can name that key.  The three write kinds
       of C09 classes 1-3 were repaired (4510e5f, f14488a, 9c2e3ca) and now cover (proofs/C09P.v);
-      what remains reachable is C09 class 6 (a synchronised version under another entity) *)
+      C09 class 6 was repaired too (9b19d99); what remains reachable is C09 class 7 (an edge tombstone
+      replaced under another source entity) *)
 Definition nonempty {A} (l : list A) : bool := match l with [] => false | _ => true end.
 Definition unc_msg (acc : state * bool) (m : msg) : state * bool :=
   let '(s, u) := acc in
